@@ -123,6 +123,22 @@ def corruptions(rng, kind, doc, n):
             if key in tgt:
                 del tgt[key]
                 out.append({"doc": d, "what": "delete-key:%s.%s" % (skind, key), "must_reject": True})
+        elif k < 0.5 and kind == "images" and len([x for x in secs if x[0] == "image"]) >= 2:
+            # identity rule across the whole manifest: give one image the identity of an image filed in ANOTHER cell, keep its checksums
+            imgs = [x for x in secs if x[0] == "image"]
+            (_, pa) = rng.choice(imgs)
+            others = [x for x in imgs if x[1][:4] != pa[:4]] or [x for x in imgs if x[1] != pa]
+            (_, pb) = rng.choice(others)
+            a, b = at(d, pa), at(d, pb)
+            for f in ["subvariant", "type", "format", "arch", "disc_number"]:
+                b[f] = copy.deepcopy(a[f])
+            for f in ["unified", "additional_variants"]:
+                if f in a:
+                    b[f] = copy.deepcopy(a[f])
+                else:
+                    b.pop(f, None)
+            b["checksums"] = {"sha256": "e" * 64}
+            out.append({"doc": d, "what": "cross-field:two images with one identity and different checksums (cells %s and %s)" % ("/".join(map(str, pa[2:4])), "/".join(map(str, pb[2:4]))), "must_reject": True})
         elif k < 0.55 and kind == "images":
             # cross-field rule: additional variants only on a unified image
             skind, path = rng.choice([x for x in secs if x[0] == "image"])
